@@ -168,6 +168,15 @@ pub fn run(ctx: &Ctx) {
             Err(e) => Ok(Info { classes: vec![format!("directed-skipped:{}", e.chars().take(40).collect::<String>())], ..Info::default() }),
         }
     });
+    // chiplet-dominated traces around a power of two: repeat.k mem_stream gives 8 + 2k + 1 chiplet
+    // rows with few cycles; k = 27 is exactly 63 rows (the padding row after the chiplets then
+    // decides between a 64- and a 128-row trace)
+    let ks: Vec<u32> = (22..=32).chain([58, 59, 60]).collect();
+    ctx.run_list("chiplet-rows-around-2^k", &ks, |&k| {
+        let case = Case { src: format!("begin repeat.{k} mem_stream end mem_load.100 drop end"), ..Case::default() };
+        round_trip(&case, 0, 64)?.map_err(|e| Viol::new("C01:boundary-setup", e, json!({"k": k})))?;
+        Ok(Info { nontrivial: Some(1000 + k as u64), classes: vec!["chiplet-rows~2^k".into()], ..Info::default() })
+    });
     // the boundary found by C03: programs running exactly 2^k - 1 cycles
     let reps: Vec<u32> = vec![20];
     ctx.run_list("cycles-2^k-1", &reps, |&r| {
